@@ -3,6 +3,11 @@
 //   syrk / herk cases:  flags <upper|lower>;  operands A (n x k) and C (n x n);  forms: inplace = f(fill, alpha, a, beta, c),
 //                       both (herk only) = blas::herk(alpha, a, c)  (both triangles, beta = 0)
 //   trsm cases:         flags <left|right> <lower|upper> <unit|nonunit>;  operands A (square) and B
+// Expression forms (follow-up 3):
+//   syrk / herk:  nobeta = f(fill, alpha, a, c) (beta 0);  herk only (complex): both1 = herk(a, c), value = r = herk(alpha, a),
+//                 value1 = r = herk(a)   (both triangles of a new size(a) x size(a) array)
+//   trsm:         nonunit5 = trsm(side, fill, alpha, a, b);  tri = trsm(side, alpha, U(a) | L(a), b);
+//                 opdiv = b /= U(a) | L(a) (right side, alpha 1);  opor = b |= U(a) | L(a) (left side, alpha 1)
 // Monitors: only the selected triangle of C is specified, the other triangle and everything outside C is framed;
 // trsm: the result X satisfies tri(a).X = alpha.B resp. X.tri(a) = alpha.B exactly (unit-modulus integer diagonal).
 template<class T> T conj_of(T const& x) {
@@ -26,24 +31,30 @@ template<class T> void run_rk(Case const& cs, bool herm) {
 	reg.add('A', ba); reg.add('C', bc);
 	bool const upper = (cs.flags[0] == "upper");
 	auto const fill = upper ? blas::filling::upper : blas::filling::lower;
-	T const alpha = mk<T>(cs.a_re, herm ? 0 : cs.a_im);
-	T const beta = (cs.form == "both") ? mk<T>(0, 0) : mk<T>(cs.b_re, herm ? 0 : cs.b_im);
-	std::string outcome, result = "na";
+	std::string const& form = cs.form;
+	T const alpha = (form == "both1" || form == "value1") ? mk<T>(1, 0) : mk<T>(cs.a_re, herm ? 0 : cs.a_im);
+	bool const both = (form == "both" || form == "both1" || form == "value" || form == "value1");
+	bool const value = (form == "value" || form == "value1");
+	T const beta = (both || form == "nobeta") ? mk<T>(0, 0) : mk<T>(cs.b_re, herm ? 0 : cs.b_im);
+	multi::array<T, 2> fresh;
+	Outcome outcome;
+	std::string result = "na";
 	std::vector<T> expect, got;
 	idx N = 0;
 	bool got_valid = false;
 	with_mat(va, sa.deco, [&](auto&& a) {
 		with_mat(vc, sc.deco, [&](auto&& c) {
-			print_D(g_id, 'A', a, reg); print_D(g_id, 'C', c, reg);
-			N = c.size();
+			print_D(g_id, 'A', a, reg);
+			if(!value) { print_D(g_id, 'C', c, reg); }
+			N = value ? a.size() : c.size();
 			idx const K = (~a).size();
-			bool const shapes_ok = (a.size() == N) && ((~c).size() == N);
+			bool const shapes_ok = value || ((a.size() == N) && ((~c).size() == N));
 			if(shapes_ok) {
 				expect.assign(static_cast<std::size_t>(N * N), T{});
 				for(idx i = 0; i != N; ++i) {
 					for(idx j = 0; j != N; ++j) {
-						T old = at2<T>(c, i, j);
-						bool const sel = (cs.form == "both") || (upper ? (i <= j) : (i >= j));
+						T old = value ? T{} : at2<T>(c, i, j);
+						bool const sel = both || (upper ? (i <= j) : (i >= j));
 						if(sel) {
 							T s{};
 							for(idx l = 0; l != K; ++l) { s += at2<T>(a, i, l) * (herm ? conj_of(at2<T>(a, j, l)) : at2<T>(a, j, l)); }
@@ -62,21 +73,37 @@ template<class T> void run_rk(Case const& cs, bool herm) {
 					if constexpr(is_cplx<T>::value) {
 						Real const al = static_cast<Real>(cs.a_re);
 						Real const be = static_cast<Real>(cs.b_re);
-						if(cs.form == "both") { blas::herk(al, a, c); } else { blas::herk(fill, al, a, be, c); }
+						if(form == "both") { blas::herk(al, a, c); }
+						else if(form == "both1" || form == "value1") {
+							// herk(a, c) / herk(a) pass the double 1.0 as alpha: ill-formed for complex<float> (no cherk with a double scalar)
+							if constexpr(std::is_same_v<Real, double>) { if(form == "both1") { blas::herk(a, c); } else { fresh = blas::herk(a); } }
+							else { throw std::runtime_error("harness: herk(a, c) for complex<float>"); }
+						}
+						else if(form == "value") { fresh = blas::herk(al, a); }
+						else if(form == "nobeta") { blas::herk(fill, al, a, c); }
+						else { blas::herk(fill, al, a, be, c); }
 					} else {
-						blas::herk(fill, alpha, a, beta, std::move(c));  // real elements: forwards to syrk (herk.hpp:147-151)
+						if(form == "nobeta") { blas::herk(fill, alpha, a, std::move(c)); }
+						else { blas::herk(fill, alpha, a, beta, std::move(c)); }  // real elements: forwards to syrk (herk.hpp:147-151)
 					}
 				} else if constexpr(!conj_a && !conj_c) {
-					blas::syrk(fill, alpha, a, beta, std::move(c));  // syrk returns by value (`auto`): an lvalue view would be copied (private)
+					if(form == "nobeta") { blas::syrk(fill, alpha, a, std::move(c)); }
+					else { blas::syrk(fill, alpha, a, beta, std::move(c)); }  // syrk returns by value (`auto`): an lvalue view would be copied (private)
 				} else { throw std::runtime_error("harness: syrk with a conjugated operand"); }
 			});
 			if(shapes_ok && outcome.rfind("outcome=ok", 0) == 0) {
 				got.assign(static_cast<std::size_t>(N * N), T{});
-				for(idx i = 0; i != N; ++i) { for(idx j = 0; j != N; ++j) { got[static_cast<std::size_t>(i * N + j)] = at2<T>(c, i, j); } }
-				got_valid = true;
+				if(value) {
+					if(fresh.size() == N && (N == 0 || (~fresh).size() == N)) { for(idx i = 0; i != N; ++i) { for(idx j = 0; j != N; ++j) { got[static_cast<std::size_t>(i * N + j)] = fresh[i][j]; } } got_valid = true; }
+					else { result = "bad:shape"; }
+				} else {
+					for(idx i = 0; i != N; ++i) { for(idx j = 0; j != N; ++j) { got[static_cast<std::size_t>(i * N + j)] = at2<T>(c, i, j); } }
+					got_valid = true;
+				}
 			}
 		});
 	});
+	if(value && fresh.num_elements() > 0) { reg.add_raw('R', fresh.data_elements(), fresh.num_elements(), static_cast<int>(sizeof(T))); }
 	print_calls(g_id, reg);
 	std::cout << "O " << g_id << " " << outcome << "\n";
 	if(got_valid) {
@@ -96,7 +123,7 @@ template<class T> void run_rk(Case const& cs, bool herm) {
 	{
 		std::vector<char> inview(static_cast<std::size_t>(bc.n), 0);
 		multi::subarray<T, 2> v(vc.lay, vc.base);
-		for(idx i = 0; i != v.size(); ++i) { for(idx j = 0; j != (~v).size(); ++j) { inview[static_cast<std::size_t>(&v[i][j] - bc.root())] = 1; } }
+		for(idx i = 0; !value && i != v.size(); ++i) { for(idx j = 0; j != (~v).size(); ++j) { inview[static_cast<std::size_t>(&v[i][j] - bc.root())] = 1; } }
 		for(idx k = 0; k != bc.n; ++k) {
 			if(inview[static_cast<std::size_t>(k)] == 0 && bc.root()[k] != bc.before[static_cast<std::size_t>(kGuard + k)]) { frame = "bad:cell" + std::to_string(k); break; }
 		}
@@ -111,9 +138,11 @@ template<class T> void run_trsm(Case const& cs) {
 	ba.init(sa.R * sa.C, sa.seed); bb.init(sb.R * sb.C, sb.seed);
 	auto va = make_mat(ba, sa);
 	auto vb = make_mat(bb, sb);
-	bool const left = (cs.flags[0] == "left");
+	std::string const& form = cs.form;
+	// the operator spellings fix the side, the diagonal and the scalar themselves
+	bool const left = (form == "opor") ? true : (form == "opdiv") ? false : (cs.flags[0] == "left");
 	bool const lower = (cs.flags[1] == "lower");
-	bool const unit = (cs.flags[2] == "unit");
+	bool const unit = (form == "inplace") ? (cs.flags[2] == "unit") : false;
 	{  // a diagonal of +-1 makes the solve exact in integers; with diagonal::unit the stored diagonal must be ignored
 		multi::subarray<T, 2> v(va.lay, va.base);
 		for(idx i = 0; i < v.size() && i < (~v).size(); ++i) { v[i][i] = unit ? mk<T>(5, 0) : mk<T>((i % 2 == 0) ? 1 : -1, 0); }
@@ -121,8 +150,9 @@ template<class T> void run_trsm(Case const& cs) {
 	}
 	Registry reg;
 	reg.add('A', ba); reg.add('B', bb);
-	T const alpha = mk<T>(cs.a_re, cs.a_im);
-	std::string outcome, result = "na";
+	T const alpha = (form == "opdiv" || form == "opor") ? mk<T>(1, 0) : mk<T>(cs.a_re, cs.a_im);
+	Outcome outcome;
+	std::string result = "na";
 	with_mat(va, sa.deco, [&](auto&& a) {
 		with_mat(vb, sb.deco, [&](auto&& b) {
 			print_D(g_id, 'A', a, reg); print_D(g_id, 'B', b, reg);
@@ -149,8 +179,14 @@ template<class T> void run_trsm(Case const& cs) {
 			constexpr bool conj_b = blas::is_conjugated<std::decay_t<decltype(b)>>{};
 			outcome = guarded([&] {
 				if constexpr(!(conj_a && conj_b)) {  // both conjugated is ill-formed at the pinned commit (trsm.hpp:107 `bbase`)
-					blas::trsm(left ? blas::side::left : blas::side::right, lower ? blas::filling::lower : blas::filling::upper,
-					           unit ? blas::diagonal::unit : blas::diagonal::non_unit, alpha, a, b);
+					auto const sd = left ? blas::side::left : blas::side::right;
+					auto const fl = lower ? blas::filling::lower : blas::filling::upper;
+					if(form == "inplace") { blas::trsm(sd, fl, unit ? blas::diagonal::unit : blas::diagonal::non_unit, alpha, a, b); }
+					else if(form == "nonunit5") { blas::trsm(sd, fl, alpha, a, b); }
+					else if(form == "tri") { if(lower) { blas::trsm(sd, alpha, blas::L(a), b); } else { blas::trsm(sd, alpha, blas::U(a), b); } }
+					else if(form == "opdiv") { using namespace blas::operators; if(lower) { b /= blas::L(a); } else { b /= blas::U(a); } }
+					else if(form == "opor") { using namespace blas::operators; if(lower) { b |= blas::L(a); } else { b |= blas::U(a); } }
+					else { throw std::runtime_error("harness: unknown trsm form"); }
 				} else { throw std::runtime_error("harness: trsm with both operands conjugated"); }
 			});
 			if(shapes_ok && outcome.rfind("outcome=ok", 0) == 0) {
